@@ -10,6 +10,7 @@ resumed with Hang (a BaseException, so library code cannot swallow it).
 
 All events are totally ordered (one thread at a time), so any log written by controlled threads is in real order.
 """
+import os
 import sys
 import threading as _threading
 from _thread import allocate_lock as _allocate_lock
@@ -55,6 +56,14 @@ class _Signal:
 
     def acquire(self, timeout=-1):
         return self._l.acquire(True, timeout)
+
+
+class SpinDetected(BaseException):
+    """injected into a controlled thread that has been running for SPIN_LIMIT seconds of real time without reaching a yield
+    point (a busy loop in the code under test): it ends that thread instead of hanging the whole check"""
+
+
+SPIN_LIMIT = 20.0
 
 
 class Sched:
@@ -272,7 +281,17 @@ class Sched:
                     result["steplimit"] = True
                 self.log.append(self.names[pick])
                 self.sem[pick].release()
-                self.sched_sem.acquire()
+                tries = 0
+                while not self.sched_sem.acquire(timeout=SPIN_LIMIT):
+                    # the thread neither finished nor yielded: a busy loop (or a stall in C code).  Make it raise.
+                    tries += 1
+                    self.spins = getattr(self, "spins", 0) + 1
+                    if tries > 3:
+                        sys.stderr.write("machinery failure: thread %s does not yield and cannot be interrupted\n" % self.names[pick])
+                        sys.stderr.flush()
+                        os._exit(2)
+                    import ctypes
+                    ctypes.pythonapi.PyThreadState_SetAsyncExc(ctypes.c_ulong(pick), ctypes.py_object(SpinDetected))
         finally:
             self._abort_rest()
             CUR = None
